@@ -206,9 +206,33 @@ class _Getter(NativeModel):
         return w.I.call(w.I.getattr(w.rt, 'Const'), [dt, v])
 
 
+STUB_REL = BEH + '_c10_stub.py'
+STUB_SRC = """
+class PairStub:
+  # stand-in for a @bitstruct class with two fields (only what is_bitstruct_inst / _get_rtlir_dtype_struct read)
+  __bitstruct_fields__ = { 'a': None, 'b': None }
+"""
+
+
+class _StructCls(NativeModel):
+    """a bitstruct class as seen by visit_StructInst: calling it yields a default instance"""
+    __name__ = 'PairStub'
+
+    def __init__(self, inst):
+        self.inst = inst
+
+    def __call__(self):
+        return self.inst
+
+
 class World:
     """the interpreted checker world for one analysed tree"""
     def __init__(s, repo):
+        from sa.loader import Repo
+        s.outer = repo
+        ov = dict(repo.overlay)
+        ov.setdefault(STUB_REL, STUB_SRC)
+        repo = Repo(repo.root, ov)
         s.repo = repo
         s.I = Interp(repo)
         s.bir = s.I.module(BIR)
@@ -230,6 +254,18 @@ class World:
         s.bits_cls = s.I.mod_name(repo.mod(RDT), 'Bits')       # the Bits class as the rtype layer sees it
         if not isinstance(s.bits_cls, ClsVal):
             raise AnalysisError("anchor vanished: Bits class imported by RTLIRDataType.py")
+
+    def sync(s):
+        """files read by the interpreter count as consulted by the analysed repo object (evidence / digest)"""
+        for rel in list(s.repo.consulted):
+            if rel not in (STUB_REL, PROBE_REL) and rel not in s.outer.consulted:
+                s.outer.mod(rel)
+
+    def struct_stub(s, wa, wb):
+        """(callable class stand-in, rdt field widths) of a two-field bitstruct"""
+        inst = AInst(s.I.get_class(STUB_REL, 'PairStub'))
+        inst.attrs.update(a=s.bits_obj(wa, 0), b=s.bits_obj(wb, 0))
+        return _StructCls(inst)
 
     def bits_obj(s, nbits, value):
         b = AInst(s.bits_cls)
@@ -298,6 +334,7 @@ def world(repo):
     w = getattr(repo, '_c10_world', None)
     if w is None:
         w = repo._c10_world = World(repo)
+        w.sync()
     return w
 
 
@@ -932,6 +969,96 @@ def _bool_struct_points(repo):
     return out
 
 
+def _tmpvar_struct_points(repo):
+    """(construct, handler, example, problem-or-None): temporaries assigned twice; arguments of a struct instantiation"""
+    w = world(repo)
+    out = []
+    S = lambda v, name: SymInt(v, sym=name)
+
+    def value(kind, wd, tag):
+        if kind == 'E':
+            return w.operand('E', S(wd, 'w' + tag))
+        return w.operand('Ic', S(wd, 'w' + tag), S({1: 1, 4: 9, 8: 200, 12: 2100}[wd], 'v' + tag))
+    first_kinds = (('E', 8, 'an explicit 8-bit value'), ('Ic', 8, 'an 8-bit literal'), ('Ic', 1, 'a 1-bit literal'))
+    second_kinds = (('E', 8, 'an explicit 8-bit value'), ('E', 4, 'an explicit 4-bit value'), ('E', 12, 'an explicit 12-bit value'),
+                    ('Ic', 8, 'an 8-bit literal'), ('Ic', 1, 'a 1-bit literal'), ('Ic', 12, 'a 12-bit literal'))
+    for k1, w1, t1 in first_kinds:
+        for k2, w2, t2 in second_kinds:
+            cons = f"temporary assigned {t1}, then {t2}"
+            ex = f"`u = <{t1}>; u = <{t2}>`"
+            ck = w.checker()
+
+            def assign(v):
+                tgt = w.new(w.bir, 'TmpVar', 'u', 'blk')
+                e = w.run(ck, 'visit_TmpVar', tgt)
+                if e is not None:
+                    return 'visit_TmpVar:' + e
+                return w.run(ck, '_visit_Assign_single_target', w.new(w.bir, 'Assign', [tgt], v, True), tgt, 0)
+            e1 = assign(value(k1, w1, '1'))
+            if e1 is not None:
+                out.append((cons, '_visit_Assign_single_target', ex, f"the first assignment ends with {e1}"))
+                continue
+            v2 = value(k2, w2, '2')
+            e2 = assign(v2)
+            e1x, e2x = k1 == 'E', k2 == 'E'
+            must_reject = w2 > w1 or (e2x and w2 != w1)
+            must_accept = w2 == w1
+            prob = None
+            if must_reject and e2 is None:
+                prob = (f"ACCEPTED although the second value ({w2} bits{'' if e2x else ', literal'}) is not representable in the "
+                        f"recorded {w1}-bit type: the temporary's type is silently replaced / the value truncated")
+            elif must_reject and e2 != 'PyMTLTypeError':
+                prob = f"ends with {e2} instead of PyMTLTypeError"
+            elif must_accept and e2 is not None:
+                prob = f"the second assignment of a value of the same width is {'rejected' if e2 == 'PyMTLTypeError' else 'ending with ' + e2}"
+            elif e2 is not None and e2 != 'PyMTLTypeError':
+                prob = f"ends with {e2}"
+            if prob is None and e2 is None:
+                use = w.new(w.bir, 'TmpVar', 'u', 'blk')
+                e3 = w.run(ck, 'visit_TmpVar', use)
+                if e3 is not None or not isinstance(use.attrs.get('Type'), AInst):
+                    prob = f"reading the temporary afterwards ends with {e3}"
+                elif w.nwidth(use).v != w1:
+                    prob = f"the recorded type of the temporary changed from {w1} to {w.nwidth(use).v} bits"
+                elif use.attrs.get('_is_explicit') != (e1x or e2x):
+                    prob = ("a temporary that has held an explicitly sized value is re-sizable afterwards: "
+                            "`if c: u = s.in8 else: u = 200; s.out16 @= u` is accepted and zero-extended, simulation raises a width mismatch"
+                            if (e1x or e2x) else "a temporary that only ever held literals became explicitly sized")
+            out.append((cons, '_visit_Assign_single_target', ex, prob))
+    # struct instantiation: field a has 8 bits, field b 4 bits
+    arg_kinds = (('explicit 8-bit value', 'E', 8, True), ('explicit 4-bit value', 'E', 4, False), ('explicit 12-bit value', 'E', 12, False),
+                 ('8-bit literal', 'I', 200, True), ('3-bit literal', 'I', 5, True), ('9-bit literal', 'I', 300, False),
+                 ('value of another struct type', 'S', 0, False))
+    for txt, kind, x, accept in arg_kinds:
+        ck = w.checker()
+        if kind == 'E':
+            a = w.new(w.bir, 'SizeCast', S(x, 'wx'), w.new(w.bir, 'Number', S(1, 'vx')))
+        elif kind == 'I':
+            a = w.new(w.bir, 'Number', S(x, 'vx'))
+        else:
+            sc = AInst(w.I.get_class(STUB_REL, 'PairStub'))
+            sc.attrs['_c10_dtype'] = w.new(w.rdt, 'Struct', w.I.get_class(BIR, 'Number'), {'p': w.vec(3), 'q': w.vec(5)})
+            a = w.new(w.bir, 'FreeVar', 'K', sc)
+        b = w.new(w.bir, 'SizeCast', S(4, 'wb'), w.new(w.bir, 'Number', S(1, 'vb')))
+        node = w.new(w.bir, 'StructInst', w.struct_stub(S(8, 'fa'), S(4, 'fb')), [a, b])
+        exc = w.run(ck, 'visit_StructInst', node)
+        prob = None
+        if accept and exc is not None:
+            prob = f"is {'rejected' if exc == 'PyMTLTypeError' else 'ending with ' + exc} although the bitstruct constructor accepts it"
+        elif not accept and exc is None:
+            prob = ("ACCEPTED although the bitstruct constructor of the simulator raises (Bits8 field from a value that is "
+                    "too narrow / too wide / of another type)")
+        elif not accept and exc != 'PyMTLTypeError':
+            prob = f"ends with {exc} instead of PyMTLTypeError"
+        elif accept and kind == 'I' and w.nwidth(a).v != 8:
+            prob = "the literal argument is not re-sized to the field width"
+        elif accept and (not isinstance(node.attrs.get('Type'), AInst) or w.nwidth(node).form != {'fa': 1, 'fb': 1}
+                         or node.attrs.get('_is_explicit') is not True):
+            prob = "the instantiated struct is not typed with the struct's width / explicit"
+        out.append((f"visit_StructInst: 8-bit field given a(n) {txt}", 'visit_StructInst', f"`Pair( <{txt}>, Bits4(1) )`", prob))
+    return out
+
+
 def _where(w, handler):
     f = w.I.find_method(w.ck_cls, handler)
     if f is None:
@@ -981,12 +1108,18 @@ def rule_mismatch(repo):
             r.bad(wm, wq, cons, f"{ex} is {bad[0][1]}; affected: {', '.join(sorted(k for k, _ in bad)[:6])}", wl_)
         else:
             r.ok(wm, wq, cons)
+    for cons, handler, ex, prob in _tmpvar_struct_points(repo):
+        wm, wq, wl_ = _where(w, handler)
+        if prob:
+            r.bad(wm, wq, cons, f"{ex}: {prob}", wl_)
+        else:
+            r.ok(wm, wq, cons)
     pw = probe_world(repo)
     ppts = _run_pair_points(repo, pw, only=('cmp',))
     if not any(_unify_verdict(pw, p['exc'], p['le'], p['re'], p['wl'], p['wr'], p['l'], p['r'])[1] for p in ppts):
         raise AnalysisError("R-C10-mismatch: the embedded checker without width tests is not flagged")
     r.evaluations = w.evals + len(ppts)
-    r.require_floor(58)
+    r.require_floor(80)
     return r
 
 
@@ -1209,12 +1342,33 @@ def rule_widthtable(repo):
             r.bad(wm, wq, cons, f"{probs[0]} ({len(probs)} of {len(lst)} bound pairs wrong)", wl_)
         else:
             r.ok(wm, wq, cons)
-    base = w.operand('E', S(3, 'wi'))
-    upper = w.new(w.bir, 'BinOp', base, w.new(w.bir, 'Add'), w.operand('Ic', S(3, 'ws'), S(4, 'size')))
-    upper.attrs['Type'] = w.new(w.rt, 'NetWire', w.vec(S(3, 'wi')))
-    upper.attrs['_is_explicit'] = True
-    check('visit_Slice', "visit_Slice s.x[i : i+size]: size bits", w.new(w.bir, 'Slice', w.operand('E', S(8, 'w')), base, upper),
-          {'size': 1}, simkey=('slice', 'diff'))
+    # part select s.x[ base : base + size ]: only when the upper bound is structurally `<lower> + <positive constant>`
+    ob, ob2 = Opaque('component'), Opaque('other component')
+
+    def sig(name, base=None):
+        nd = w.new(w.bir, 'Attribute', base or ob, name)
+        nd.attrs.update(Type=w.new(w.rt, 'Wire', w.vec(S(3, 'wi'))), _is_explicit=True)
+        return nd
+    ps_cases = (
+        ('upper = lower + constant size', sig('a'), sig('a'), 'Add', ('const', 4), True),
+        ('upper = lower + constant size (same node object)', None, None, 'Add', ('const', 4), True),
+        ('upper = OTHER signal + constant size', sig('a'), sig('b'), 'Add', ('const', 4), False),
+        ('upper = same attribute of another object + constant size', sig('a'), sig('a', ob2), 'Add', ('const', 4), False),
+        ('upper = lower + non-constant size', sig('a'), sig('a'), 'Add', ('sig', 0), False),
+        ('upper = OTHER signal + non-constant size', sig('a'), sig('b'), 'Add', ('sig', 0), False),
+        ('upper = lower - constant', sig('a'), sig('a'), 'Sub', ('const', 4), False),
+        ('upper = lower + 0', sig('a'), sig('a'), 'Add', ('const', 0), False),
+    )
+    for txt, lower, left, op, (rk, size), legal in ps_cases:
+        if lower is None:
+            lower = left = sig('a')
+        right = w.operand('Ic', S(3, 'ws'), S(size, 'size')) if rk == 'const' else sig('n')
+        upper = w.new(w.bir, 'BinOp', left, w.new(w.bir, op), right)
+        upper.attrs.update(Type=w.new(w.rt, 'NetWire', w.vec(S(3, 'wi'))), _is_explicit=True)
+        check('visit_Slice', f"visit_Slice part select: {txt}", w.new(w.bir, 'Slice', w.operand('E', S(8, 'w')), lower, upper),
+              {'size': 1}, must_raise=not legal, simkey=('slice', 'diff'),
+              post=lambda node, ck: None if (form_of(node.attrs.get('size', 0)) == {'size': 1} and node.attrs.get('base') is node.attrs.get('lower'))
+              else "the size / base fields the translator emits for `base +: size` are not those of the slice")
 
     # -- bit index ---------------------------------------------------------------------------------------
     def idx_points(size):
@@ -1363,7 +1517,7 @@ def rule_widthtable(repo):
     if all(p['exc'] is not None or pw.nwidth(p['node']).form == {1: 1} for p in ppts):
         raise AnalysisError("R-C10-widthtable: the embedded comparison typed like its operand is not flagged")
     r.evaluations = w.evals
-    r.require_floor(73)
+    r.require_floor(80)
     return r
 
 
@@ -1513,7 +1667,127 @@ def rule_sim_helpers(repo):
     return rule_helpers(repo)
 
 
-RULES = [rule_intlog, rule_litwidth, rule_idxwidth, rule_optable, rule_handlers, rule_mismatch, rule_widthtable, rule_cache, rule_sim_accepts,
+# ---------------------------------------------------------------------------
+def rule_ir_eq(repo):
+    r = RuleResult('R-C10-ir-eq', "structural equality of behavioural-RTLIR nodes (used by the part-select rule `lower == upper.left`) "
+                                  "compares every constructor field of self with the same field of the other node")
+    w = world(repo)
+    bm = w.repo.mod(BIR)
+    n_cls = 0
+    for name, c in sorted(bm.classes.items()):
+        init = next((x for x in c.body if isinstance(x, ast.FunctionDef) and x.name == '__init__'), None)
+        if init is None or name in ('BaseBehavioralRTLIR', 'BehavioralRTLIRNodeVisitor'):
+            continue
+        me = init.args.args[0].arg
+        fields = [t.attr for st in init.body if isinstance(st, ast.Assign) for t in st.targets
+                  if isinstance(t, ast.Attribute) and norm(t.value) == me]
+        params = [a.arg for a in init.args.args[1:]]
+        if not fields or sorted(fields) != sorted(params):
+            raise AnalysisError(f"bir.{name}.__init__ does not store exactly its parameters ({params} vs {fields})")
+        n_cls += 1
+        cls = w.I.clsval(bm, c)
+
+        def make(changed=None):
+            return w.I.call(cls, [[10 * i + (1 if p == changed else 0)] for i, p in enumerate(params)])
+        probs = []
+        try:
+            w.evals += 1
+            if not w.I.truth(w.I.eq(make(), make())):
+                probs.append("two nodes with equal fields compare unequal")
+            for p_ in params:
+                w.evals += 1
+                if w.I.truth(w.I.eq(make(), make(p_))) or not w.I.truth(w.I.ne(make(), make(p_))):
+                    probs.append(f"nodes that differ only in field `{p_}` compare equal")
+            other = w.new(w.bir, 'Number' if name != 'Number' else 'Base', [0])
+            if w.I.truth(w.I.eq(make(), other)):
+                probs.append("a node compares equal to a node of another class")
+        except Raised as e:
+            probs.append(f"__eq__ ends with {e.what}")
+        cons = f"bir.{name}.__eq__ over fields {params}"
+        eqf = w.I.find_method(cls, '__eq__')
+        if probs:
+            r.bad(bm, f"{name}.__eq__", cons, f"{probs[0]}: e.g. the part-select rule takes s.x[a[0] : a[1]+4] for s.x[base : base+4] "
+                  f"when `lower == upper.left` holds for different expressions", eqf.node.lineno if eqf else c.lineno)
+        else:
+            r.ok(bm, f"{name}.__eq__", cons)
+    w.sync()
+    r.evaluations = w.evals
+    r.require_floor(22)
+    return r
+
+
+def rule_slice_step(repo):
+    r = RuleResult('R-C10-slicestep', "every branch (and python-version sibling) of the generator that builds a bir.Slice from a "
+                                      "(lower, upper[, step]) source rejects a step first")
+    from sa.astutil import guards_of, reaching_value, qualname, preceding_stmts, walk_no_nested as wnn
+    n = 0
+    for rel in GEN:
+        m = repo.mod(rel)
+        for f in ast.walk(m.tree):
+            if not isinstance(f, ast.FunctionDef):
+                continue
+            for c in wnn(f):
+                if not (isinstance(c, ast.Call) and norm(c.func) == 'bir.Slice'):
+                    continue
+                n += 1
+                # where do lower / upper come from?
+                srcs = set()
+                for a in c.args[1:3]:
+                    for x in ast.walk(a):
+                        if isinstance(x, ast.Name):
+                            val = x.id
+                            for st_ in preceding_stmts(c):
+                                if isinstance(st_, ast.Assign) and any(isinstance(y, ast.Name) and y.id == x.id
+                                                                       for t_ in st_.targets for y in ast.walk(t_)):
+                                    val = norm(st_.value)
+                            srcs.add(val)
+                        elif isinstance(x, ast.Attribute):
+                            srcs.add(norm(x))
+                stext = ' '.join(sorted(srcs))
+                ok = False
+                for g in guards_of(c):
+                    t = g.test
+                    if g.kind not in ('exit', 'assert') or not isinstance(t, (ast.Compare, ast.Attribute)):
+                        continue
+                    step = t.left if isinstance(t, ast.Compare) else t
+                    if not (isinstance(step, ast.Attribute) and step.attr == 'step'):
+                        continue
+                    owner = norm(step.value)
+                    rvo = reaching_value(owner, c) if isinstance(step.value, ast.Name) else None
+                    related = owner in stext or (rvo is not None and norm(rvo) in stext)
+                    if isinstance(t, ast.Compare) and len(t.ops) == 1 and norm(t.comparators[0]) == 'None':
+                        rejects_step = (isinstance(t.ops[0], ast.IsNot) and g.polarity is False) or \
+                                       (isinstance(t.ops[0], ast.Is) and g.polarity is True) or \
+                                       (isinstance(t.ops[0], ast.NotEq) and g.polarity is False) or \
+                                       (isinstance(t.ops[0], ast.Eq) and g.polarity is True)
+                    else:
+                        rejects_step = False
+                    raises = g.kind == 'assert' or any(isinstance(x, ast.Raise) for b in g.exit_block for x in ast.walk(b))
+                    if related and rejects_step and raises:
+                        ok = True
+                cons = f"{norm(c)[:70]}"
+                q = qualname(f)
+                if ok:
+                    r.ok(m, q, cons)
+                else:
+                    r.bad(m, q, cons, "this branch builds a slice node without first rejecting a slice step: "
+                          "`s.in_[sl]` with sl = slice(0, 8, 2) is translated / typed as in_[0:8] (8 bits) while the simulator "
+                          "raises / selects every second bit; the sibling branches reject it", c.lineno)
+    r.require_floor(4)
+    return r
+
+
+def rule_constcache_dep(repo):
+    """constants the type checker folds (node._value, widths of s.W-style parameters) come from ConstantExtractor's memo keyed by
+    AST node; the AST of a block is shared by all instances of a component class, so the memo must live in the extractor instance
+    created per block.  Shared with C03 (R-tr-constcache)."""
+    from rules.c03 import BACKEND
+    from sa import tr_util
+    return tr_util.rule_constcache(repo, BACKEND)
+
+
+RULES = [rule_intlog, rule_litwidth, rule_idxwidth, rule_optable, rule_handlers, rule_mismatch, rule_widthtable, rule_cache, rule_ir_eq, rule_slice_step,
+         rule_constcache_dep, rule_sim_accepts,
          rule_sim_helpers]
 
 
@@ -1572,6 +1846,34 @@ MUTANTS = [
     _m('bit-index-lower-bound-lost', TC1, "        if idx is not None and not(0 <= idx < dtype.get_length()):", "        if idx is not None and idx >= dtype.get_length():", 'R-C10-widthtable'),
     _m('slice-lower-bound-lost', TC1, "      if not ( 0 <= lower_val < upper_val <= signal_nbits ):", "      if not ( lower_val < upper_val <= signal_nbits ):", 'R-C10-widthtable'),
     _m('array-const-element-off-by-one', TC1, "          node._value = int( obj[ int( idx ) ] )", "          node._value = int( obj[ int( idx ) - 1 ] )", 'R-C10-widthtable'),
+    # fourth round
+    _m('tmpvar-literal-overwrites-recorded-type', TC2, "      if lhs_type != rt.NoneType() and lhs_type.get_dtype() != rhs_type.get_dtype():",
+       "      if lhs_type != rt.NoneType() and node.value._is_explicit and \\\n         lhs_type.get_dtype() != rhs_type.get_dtype():", 'R-C10-mismatch'),
+    _m('tmpvar-may-shrink', TC2, "      if lhs_type != rt.NoneType() and lhs_type.get_dtype() != rhs_type.get_dtype():",
+       "      if lhs_type != rt.NoneType() and lhs_type.get_dtype().get_length() < rhs_type.get_dtype().get_length():", 'R-C10-mismatch'),
+    _m('defect-f-tmpvar-explicitness-overwritten', TC2, "      s.tmpvars_is_explicit[ tmpvar_id ] = node.value._is_explicit or \\\n                                           s.tmpvars_is_explicit.get( tmpvar_id, False )\n",
+       "      s.tmpvars_is_explicit[ tmpvar_id ] = node.value._is_explicit\n", 'R-C10-mismatch'),
+    _m('defect-g-structinst-literal-truncated', TC3, "          if v_dtype.get_length() > target_nbits:\n", "          if False:\n", 'R-C10-mismatch'),
+    _m('structinst-explicit-arg-castable-suffices', TC3, "        else:\n          raise PyMTLTypeError( s.blk, node.ast,\n            f\"Expected argument#{idx+1}",
+       "        elif not field( v_dtype ):\n          raise PyMTLTypeError( s.blk, node.ast,\n            f\"Expected argument#{idx+1}", 'R-C10-mismatch'),
+    _m('structinst-literal-not-resized', TC3, "          s.enforcer.enter( s.blk, rt.NetWire(rdt.Vector(target_nbits)), value )", "          pass", 'R-C10-mismatch'),
+    dict(name='const-cache-shared-by-all-extractors', rule='R-tr-constcache', edits=[
+        dict(file=GEN[0], old="class ConstantExtractor( ast.NodeVisitor ):\n  def __init__", new="class ConstantExtractor( ast.NodeVisitor ):\n  cache = {}\n\n  def __init__", count=1),
+        dict(file=GEN[0], old="    s.cache = {}\n", new="", count=1)]),
+    _m('ir-index-eq-self-vs-self', BIR, "s.idx == other.idx", "s.idx == s.idx", 'R-C10-ir-eq'),
+    _m('ir-attribute-eq-ignores-attr', BIR, "isinstance(other, Attribute) and s.value == other.value and s.attr == other.attr", "isinstance(other, Attribute) and s.value == other.value", 'R-C10-ir-eq'),
+    _m('ir-concat-eq-any-class', BIR, "    if not isinstance(other, Concat):\n      return False\n", "", 'R-C10-ir-eq'),
+    _m('slice-object-step-unchecked-py39', GEN[0], "      slice_obj = idx.obj\n      if slice_obj.step is not None:\n        raise PyMTLSyntaxError( s.blk, node,\n          'Slice with steps is not supported!' )\n",
+       "      slice_obj = idx.obj\n", 'R-C10-slicestep'),
+    _m('slice-literal-step-unchecked-py38', GEN[0], "      if node.slice.step is not None:\n        raise PyMTLSyntaxError( s.blk, node,\n          'Slice with steps is not supported!' )\n      lower, upper = s.visit( node.slice )",
+       "      lower, upper = s.visit( node.slice )", 'R-C10-slicestep', count='first'),
+    _m('part-select-base-equality-lost', TC1, "        assert node.lower == node.upper.left\n", "", 'R-C10-widthtable'),
+    _m('part-select-as-if-chain-without-equality', TC1,
+       "      try:\n        assert isinstance( node.upper, bir.BinOp )\n        assert isinstance( node.upper.op, bir.Add )\n        nbits = node.upper.right\n        slice_size = nbits._value\n        assert node.lower == node.upper.left\n"
+       "        node.Type = rt.NetWire( rdt.Vector( slice_size ) )\n        node._is_explicit = True\n        # Add new fields that might help translation\n        node.size = slice_size\n        node.base = node.lower\n      except Exception:\n",
+       "      upper = node.upper\n      if isinstance( upper, bir.BinOp ) and isinstance( upper.op, bir.Add ) and \\\n         hasattr( upper.right, '_value' ):\n        slice_size = upper.right._value\n"
+       "        node.Type = rt.NetWire( rdt.Vector( slice_size ) )\n        node._is_explicit = True\n        # Add new fields that might help translation\n        node.size = slice_size\n        node.base = node.lower\n      else:\n", 'R-C10-widthtable'),
+    _m('part-select-any-operator', TC1, "        assert isinstance( node.upper.op, bir.Add )\n", "", 'R-C10-widthtable'),
     # literal width
     _m('float-log-reintroduced-L1', TC1, "      return value.bit_length()\n", "      return math.ceil(math.log2(value+1))\n", 'R-intlog'),
     _m('float-log-reintroduced-rdt', RDT, "    return value.bit_length()\n", "    return ceil(log2(value+1))\n", 'R-C10-litwidth'),
@@ -1650,6 +1952,10 @@ MUTANTS = [
 ]
 
 EQUIV = [
+    _m('part-select-equality-mirrored', TC1, "        assert node.lower == node.upper.left\n", "        assert node.upper.left == node.lower\n"),
+    _m('ir-index-eq-reordered', BIR, "isinstance(other, Index) and s.value == other.value and s.idx == other.idx", "isinstance(other, Index) and other.idx == s.idx and other.value == s.value"),
+    _m('tmpvar-nonetype-test-as-not-eq', TC2, "      if lhs_type != rt.NoneType() and lhs_type.get_dtype() != rhs_type.get_dtype():", "      if not (lhs_type == rt.NoneType()) and lhs_type.get_dtype() != rhs_type.get_dtype():"),
+    _m('slice-step-test-as-not-is-none', GEN[0], "      if slice_obj.step is not None:", "      if not (slice_obj.step is None):", count=2),
     dict(name='struct-dtype-memo-keyed-by-class-object', edits=[
         dict(file=RT, old="    self._RTLIR_ifc_handlers = [\n", new="    self._struct_dtype_cache = {}\n\n    self._RTLIR_ifc_handlers = [\n", count=1),
         dict(file=RT, old="  def _handle_Wire( self, w_id, obj ):\n    return Wire( get_rtlir_dtype( obj ) )\n",
